@@ -56,5 +56,14 @@ def jobs(tier):
         J.append(Job(name=f"f.public.{which}.N{n}", group="C16.f", harness="harness/C16_public.c", defines={"WHICH": which, "N": n}, real=["dbus/dbus-syntax.c", V, S], env=COMMON_ENV,
                      unwind=n + 7, unwindset=["strcmp.0:48"], timeout=600, extra=["--object-bits", "11"], encodes=["dbus_validate_" + which, "_dbus_string_init_const"],
                      bounds=f"every NUL-terminated C string of up to {n} bytes (full alphabet)", shape=f"public {which}, N={n}"))
-    # C16.g (match-rule route, harness/C16_matchrule.c): not registered — the tokenizer over symbolic value bytes gave no verdict (N=2: solver out of memory at 16 GB)
+    # C16.g: match-rule route on CONCRETE representative values (the parser's verdict must equal the grammar's; bounded runs of the real bus_match_rule_parse)
+    MR = [("sender", 0, [":!", "::", ":1.", ":1.5", ":a", "a..b", "a.b", ".a", "a", "1a.b", "a.b-c", ":1.b_c"]), ("destination", 0, [":!", ":1.5", "a.b", "a"]),
+          ("interface", 1, ["a.b", "a", "a.1b", "a..b", "a.b_c"]), ("member", 2, ["Ab", "a.b", "1a", ""]), ("path", 3, ["/", "/a", "/a/", "a", "//", "/a_1"])]
+    for key, ref, vals in MR:
+        for vi, v in enumerate(vals):
+            J.append(Job(name=f"g.matchrule.{key}.v{vi}", group="C16.g", harness="harness/C16_matchrule.c", defines={"KEYSTR": '"' + key + '"', "REF": ref, "VALUE": '"' + v + '"'}, real=["dbus/dbus-list.c", V], env=["assert_stubs.c", "memfuncs.c", "pool_lock.c", "msg_model.c"],
+                         checks="assert", unwind=24, unwindset=["strcmp.0:48", "strlen.0:24"], timeout=300, extra=["--object-bits", "11", "--max-field-sensitivity-array-size", "200"],
+                         encodes=["bus_match_rule_parse", "tokenize_rule", "find_key", "find_value", "bus_match_rule_parse_arg_match"], stubs=["pool strings (R19); stolen / duplicated strings copied into static pools"],
+                         bounds=f"concrete rule text {key}='{v}' (representative value; no symbolic content)", shape=f"match rule {key}={v}"))
+    # (the symbolic-value form of harness/C16_matchrule.c is not registered — the tokenizer over symbolic value bytes gave no verdict (N=2: solver out of memory at 16 GB)
     return J
